@@ -42,7 +42,7 @@ class ReplayDivergence(RuntimeError):
 
 
 class Seam:
-    def __init__(self, script=(), seed=0, float_patterns=True, perm_all_upto=4, label_sites=False):
+    def __init__(self, script=(), seed=0, float_patterns=True, perm_all_upto=4, label_sites=False, tie_rows=False):
         _save_originals()
         self.script = list(script)
         self.seed = seed
@@ -51,6 +51,9 @@ class Seam:
         self.perm_all_upto = perm_all_upto
         self.unowned = False
         self.calls = []
+        # tie_rows: the rows of one multinomial call are copies of the same state (used where the library does not
+        # support batch size 1): ONE choice point per call, every row takes the answer of the same rank
+        self.tie_rows = tie_rows
 
     # ---- choice bookkeeping -------------------------------------------------------------------
     def choose(self, kind, n_alt):
@@ -96,8 +99,14 @@ class Seam:
         self.calls.append("multinomial")
         p2 = probs.reshape(-1, probs.shape[-1]) if probs.dim() > 1 else probs.reshape(1, -1)
         rows = []
+        tied = None
         for r in range(p2.shape[0]):
             en = (p2[r] > 0).nonzero().flatten().tolist()
+            if self.tie_rows and num_samples == 1 and en:
+                if tied is None:
+                    tied = self.choose("multinomial", len(en))
+                rows.append([en[min(tied, len(en) - 1)]])
+                continue
             if not en:
                 raise RuntimeError("multinomial over a row without positive probability")
             if num_samples == 1:
